@@ -61,13 +61,13 @@ def main():
             return 2
         for name, d in (("clean", clean), ("patched", patched)):
             shutil.copy(demo, os.path.join(d, "demo.py"))
-            env = dict(os.environ, PYTHONPATH=d)
+            env = dict(os.environ, PYTHONPATH=d, OMP_NUM_THREADS="2", MKL_NUM_THREADS="2")
             rc, out = sh("/venv/bin/python demo.py", cwd=d, env=env, timeout=900)
             meta["demo_rc_%s" % name] = rc
             meta["demo_out_%s" % name] = "\n".join(l for l in out.splitlines() if "Warning" not in l and "conda" not in l)[-600:]
             print("demo on %s: rc=%d" % (name, rc))
         if run_suite:
-            rc, out = sh("/venv/bin/python -m pytest -q -p no:cacheprovider --timeout=900 -x --deselect tests/transforms/linear_test.py::NaiveLinearTest --deselect tests/utils/torchutils_test.py::TorchUtilsTest::test_random_orthogonal", cwd=patched, timeout=1800)
+            rc, out = sh("/venv/bin/python -m pytest -q -p no:cacheprovider --timeout=900 -x --deselect tests/transforms/linear_test.py::NaiveLinearTest --deselect tests/utils/torchutils_test.py::TorchUtilsTest::test_random_orthogonal", cwd=patched, timeout=1800, env=dict(os.environ, OMP_NUM_THREADS="2", MKL_NUM_THREADS="2"))
             tail = [l for l in out.splitlines() if " passed" in l or " failed" in l]
             meta["suite_tail"] = tail[-1] if tail else out[-300:]
             m = re.search(r"(\d+) passed", meta["suite_tail"])
